@@ -16,6 +16,7 @@ type askInfo struct {
 type Profile struct {
 	Name    string
 	Conf    string
+	Confs   []string // alternatives for the initial configuration, one is picked per trace (Conf when empty)
 	Reloads []string
 	Queues  []string
 	Apps    int
@@ -36,7 +37,7 @@ type Profile struct {
 }
 
 var baseW = map[string]int{"addNode": 6, "removeNode": 3, "drain": 1, "undrain": 1, "updateNode": 1, "foreign": 2, "foreignRemove": 1, "addApp": 7, "removeApp": 2,
-	"addAsk": 20, "release": 8, "confirm": 9, "firePhTimer": 2, "fireStateTimer": 3, "deny": 2, "reportBound": 1, "updateAsk": 1, "schedule": 31}
+	"addAsk": 20, "release": 8, "releaseAll": 1, "confirm": 9, "firePhTimer": 2, "fireStateTimer": 3, "deny": 2, "reportBound": 1, "updateAsk": 1, "schedule": 31}
 
 func withW(over map[string]int) map[string]int {
 	out := map[string]int{}
@@ -61,7 +62,7 @@ func GetProfile(name string) *Profile {
 			W:       withW(map[string]int{"drain": 3, "undrain": 3, "updateNode": 4, "foreign": 6, "foreignRemove": 3, "deny": 4, "reportBound": 3, "updateAsk": 3}),
 			GangPct: 15, ReqNode: 6, MaxPrio: 2, NodeMem: [2]int{2, 4}, AskMem: 3}
 	case "gang":
-		return &Profile{Name: name, Conf: "base", Queues: []string{"root.a", "root.p.x", "root.p.y"}, Apps: 3, Nodes: 3, Users: u2, Groups: g,
+		return &Profile{Name: name, Conf: "base", Confs: []string{"base", "base", "D"}, Queues: []string{"root.a", "root.p.x", "root.p.y"}, Apps: 3, Nodes: 3, Users: u2, Groups: g,
 			W:       withW(map[string]int{"firePhTimer": 5, "fireStateTimer": 4, "deny": 5, "confirm": 14, "removeNode": 4, "foreign": 0, "foreignRemove": 0, "updateNode": 0, "reportBound": 0, "updateAsk": 0}),
 			GangPct: 80, ReqNode: 0, MaxPrio: 2, NodeMem: [2]int{3, 6}, AskMem: 3}
 	case "reserve":
@@ -69,7 +70,7 @@ func GetProfile(name string) *Profile {
 			W:       withW(map[string]int{"drain": 2, "undrain": 2, "deny": 3, "addAsk": 24, "release": 10}),
 			GangPct: 10, ReqNode: 5, MaxPrio: 3, NodeMem: [2]int{2, 4}, AskMem: 4}
 	case "reload":
-		return &Profile{Name: name, Conf: "base", Reloads: []string{"base", "B", "C", "D", "bad", "bad2"}, Queues: []string{"root.a", "root.p.x", "root.p.y", "root.p.w", "root.q"}, Apps: 4, Nodes: 3, Users: u2, Groups: g,
+		return &Profile{Name: name, Conf: "base", Confs: []string{"base", "base", "baseCase"}, Reloads: []string{"base", "B", "C", "D", "bad", "bad2", "BCase", "CCase"}, Queues: []string{"root.a", "root.p.x", "root.p.y", "root.p.w", "root.q"}, Apps: 4, Nodes: 3, Users: u2, Groups: g,
 			W:       withW(map[string]int{"reload": 6, "cleanQueues": 3}),
 			GangPct: 15, ReqNode: 0, MaxPrio: 2, NodeMem: [2]int{2, 5}, AskMem: 3}
 	case "preempt":
@@ -77,7 +78,7 @@ func GetProfile(name string) *Profile {
 			W:       withW(map[string]int{"firePhTimer": 0, "deny": 0, "foreign": 1, "foreignRemove": 1, "addAsk": 30, "release": 3, "removeNode": 1, "removeApp": 1, "addNode": 8, "schedule": 45, "confirm": 12, "reportBound": 0, "updateAsk": 0}),
 			GangPct: 0, ReqNode: 10, MaxPrio: 4, NodeMem: [2]int{3, 6}, AskMem: 3, AgedPct: 80}
 	case "preempt2":
-		return &Profile{Name: name, Conf: "pre2", Queues: []string{"root.p.x", "root.p.y", "root.q", "root.r.s", "root.r.t"}, Apps: 6, Nodes: 3, Users: u2, Groups: g,
+		return &Profile{Name: name, Conf: "pre2", Confs: []string{"pre2", "pre3"}, Queues: []string{"root.p.x", "root.p.y", "root.q", "root.r.s", "root.r.t"}, Apps: 6, Nodes: 3, Users: u2, Groups: g,
 			W:       withW(map[string]int{"firePhTimer": 0, "deny": 0, "foreign": 1, "foreignRemove": 1, "addAsk": 30, "release": 3, "removeNode": 1, "removeApp": 1, "addNode": 8, "schedule": 45, "confirm": 12, "reportBound": 0, "updateAsk": 0}),
 			GangPct: 0, ReqNode: 14, MaxPrio: 4, NodeMem: [2]int{3, 6}, AskMem: 3, AgedPct: 80}
 	case "quota":
@@ -115,7 +116,7 @@ type Gen struct {
 	names   []string
 }
 
-var opOrder = []string{"addNode", "removeNode", "drain", "undrain", "updateNode", "foreign", "foreignRemove", "addApp", "removeApp", "addAsk", "release", "confirm",
+var opOrder = []string{"addNode", "removeNode", "drain", "undrain", "updateNode", "foreign", "foreignRemove", "addApp", "removeApp", "addAsk", "release", "releaseAll", "confirm",
 	"firePhTimer", "fireStateTimer", "deny", "reportBound", "updateAsk", "reload", "cleanQueues", "quotaTick", "restart", "bad", "schedule"}
 
 func NewGen(p *Profile, seed int64) *Gen {
@@ -169,15 +170,226 @@ func (g *Gen) cap() map[string]int64 {
 
 // First returns the reset line of a trace.
 func (g *Gen) First() M {
-	return M{"op": "reset", "conf": g.P.Conf, "profile": g.P.Name}
+	conf := g.P.Conf
+	if len(g.P.Confs) > 0 {
+		conf = g.P.Confs[g.rng.Intn(len(g.P.Confs))]
+	}
+	return M{"op": "reset", "conf": conf, "profile": g.P.Name}
 }
 
 // Prologue returns scripted operations that bring a trace quickly into the regime the profile is about (for the
 // preemption profiles: full nodes held by applications in queues without guarantee, then aged asks in guaranteed queues).
 func (g *Gen) Prologue() []M {
-	if g.P.Name != "preempt" && g.P.Name != "preempt2" {
-		return nil
+	switch g.P.Name {
+	case "preempt", "preempt2":
+		return g.preemptPrologue()
+	case "gang":
+		if g.rng.Intn(3) != 0 {
+			return g.gangPrologue()
+		}
+	case "limits":
+		switch g.rng.Intn(3) {
+		case 0:
+			return g.pressurePrologue()
+		case 1:
+			return g.quotaPrologue()
+		}
+	case "reserve", "capacity", "restart":
+		if g.rng.Intn(2) == 0 {
+			return g.pressurePrologue()
+		}
 	}
+	return nil
+}
+
+func (g *Gen) mkAsk(ops *[]M, app string, res map[string]int64, prio int, aged bool, ph bool, tg string, reqNode string) string {
+	key := fmt.Sprintf("k%d", g.nextKey)
+	g.nextKey++
+	*ops = append(*ops, M{"op": "addAsk", "app": app, "key": key, "res": res, "ph": ph, "tg": tg, "aged": aged, "reqNode": reqNode,
+		"prio": prio, "preemptOther": true, "preemptSelf": true, "originator": false, "node": ""})
+	g.keys = append(g.keys, askInfo{app, key, ph})
+	return key
+}
+
+func (g *Gen) mkApp(ops *[]M, app, queue string, gang bool) {
+	op := M{"op": "addApp", "app": app, "queue": queue, "user": g.P.Users[g.rng.Intn(len(g.P.Users))], "groups": g.P.Groups[g.rng.Intn(len(g.P.Groups))],
+		"gang": gang, "style": "", "forced": false, "tags": map[string]string{}}
+	if gang {
+		op["phAsk"], op["style"] = map[string]int64{"memory": 2}, []string{"Soft", "Hard"}[g.rng.Intn(2)]
+	}
+	g.gang[app] = gang
+	g.live[app] = true
+	*ops = append(*ops, op)
+}
+
+func (g *Gen) sched(ops *[]M, n int) {
+	for i := 0; i < n; i++ {
+		*ops = append(*ops, M{"op": "schedule"})
+	}
+}
+
+// gangPrologue: the placeholder swap regime. Placeholders of one task group are allocated, then real tasks of the group
+// arrive that are smaller / equal / carry a resource type the placeholder lacks, some of them cannot use the placeholder's
+// node (predicate failure), so swaps happen in place and across nodes; what follows (confirmations in any order, node
+// removal, timers, releases) is left to the random part.
+func (g *Gen) gangPrologue() []M {
+	rng := g.rng
+	var ops []M
+	for n := 0; n < g.P.Nodes; n++ {
+		ops = append(ops, M{"op": "addNode", "node": fmt.Sprintf("n%d", n), "cap": map[string]int64{"memory": int64(3 + rng.Intn(4)), "pods": int64(1 + rng.Intn(2))}, "drained": false})
+	}
+	if rng.Intn(2) == 0 { // somebody else holds pods / memory
+		g.mkApp(&ops, "app2", g.P.Queues[rng.Intn(len(g.P.Queues))], false)
+		for j := 0; j < 1+rng.Intn(3); j++ {
+			g.mkAsk(&ops, "app2", map[string]int64{"memory": 1, "pods": 1}, 0, false, false, "", "")
+		}
+		g.sched(&ops, 3)
+	}
+	// cross: the real tasks are refused (predicates) on all nodes but one, so the swap has to go to another node
+	// whenever no placeholder sits on that node
+	cross := rng.Intn(2) == 0
+	nph := 2 + rng.Intn(2)
+	if cross {
+		nph = 1 + rng.Intn(2)
+	}
+	g.mkApp(&ops, "app0", g.P.Queues[rng.Intn(len(g.P.Queues))], true)
+	for j := 0; j < nph; j++ {
+		g.mkAsk(&ops, "app0", map[string]int64{"memory": 2}, 0, false, true, "tg", "")
+	}
+	g.sched(&ops, 3+rng.Intn(2))
+	var reals []string
+	for j := 0; j < 1+rng.Intn(3); j++ {
+		rs := map[string]int64{"memory": int64(1 + rng.Intn(2))}
+		switch rng.Intn(5) {
+		case 0, 1:
+			rs["pods"] = 1
+		case 2:
+			rs["gpu"] = 1 // a resource type no node provides
+		}
+		reals = append(reals, g.mkAsk(&ops, "app0", rs, 0, rng.Intn(2) == 0, false, "tg", ""))
+	}
+	keep := -1
+	for _, k := range reals {
+		if cross {
+			keep = rng.Intn(g.P.Nodes)
+			for n := 0; n < g.P.Nodes; n++ {
+				if n != keep {
+					ops = append(ops, M{"op": "deny", "key": k, "node": fmt.Sprintf("n%d", n)})
+				}
+			}
+			continue
+		}
+		for rng.Intn(2) == 0 {
+			ops = append(ops, M{"op": "deny", "key": k, "node": g.node()})
+		}
+	}
+	g.sched(&ops, 1+rng.Intn(3))
+	// something happens while swaps may be in flight (before the shim has confirmed anything)
+	switch rng.Intn(9) {
+	case 0, 8:
+		// a node other than the one the last real task was steered to: likely one that holds a placeholder
+		n := rng.Intn(g.P.Nodes)
+		if n == keep {
+			n = (n + 1) % g.P.Nodes
+		}
+		ops = append(ops, M{"op": "removeNode", "node": fmt.Sprintf("n%d", n)})
+	case 1:
+		ops = append(ops, M{"op": "removeApp", "app": "app0"})
+		delete(g.live, "app0")
+	case 2:
+		ops = append(ops, M{"op": "releaseAll", "app": "app0"})
+	case 3:
+		ki := g.keys[rng.Intn(len(g.keys))]
+		ops = append(ops, M{"op": "release", "app": ki.app, "key": ki.key, "term": "STOPPED_BY_RM"})
+	case 4:
+		ops = append(ops, M{"op": "firePhTimer", "app": "app0"})
+	case 5:
+		ops = append(ops, M{"op": "drain", "node": g.node()})
+	}
+	return ops
+}
+
+// pressurePrologue: full, fragmented nodes and waiting requests. Small allocations of several applications fill the
+// nodes, aged larger requests get reserved, further small requests eat the space (and the user's quota headroom) that was
+// left, a required-node request may land on a reserved node, then something is released so that room appears on a node
+// that is or is not the reserved one.
+func (g *Gen) pressurePrologue() []M {
+	rng := g.rng
+	var ops []M
+	for n := 0; n < g.P.Nodes; n++ {
+		ops = append(ops, M{"op": "addNode", "node": fmt.Sprintf("n%d", n), "cap": map[string]int64{"memory": int64(2 + rng.Intn(3)), "pods": int64(2 + rng.Intn(3))}, "drained": false})
+	}
+	napps := 3
+	var first []string
+	for i := 0; i < napps; i++ {
+		app := fmt.Sprintf("app%d", i)
+		g.mkApp(&ops, app, g.P.Queues[rng.Intn(len(g.P.Queues))], false)
+		for j := 0; j < 1+rng.Intn(3); j++ {
+			first = append(first, g.mkAsk(&ops, app, map[string]int64{"memory": int64(1 + rng.Intn(2))}, rng.Intn(2), false, false, "", ""))
+		}
+	}
+	g.sched(&ops, 5)
+	for j := 0; j < 2+rng.Intn(2); j++ {
+		g.mkAsk(&ops, fmt.Sprintf("app%d", rng.Intn(napps)), map[string]int64{"memory": int64(2 + rng.Intn(3))}, rng.Intn(3), true, false, "", "")
+	}
+	g.sched(&ops, 3)
+	for j := 0; j < 1+rng.Intn(3); j++ {
+		req := ""
+		if rng.Intn(3) == 0 {
+			req = g.node()
+		}
+		g.mkAsk(&ops, fmt.Sprintf("app%d", rng.Intn(napps)), map[string]int64{"memory": 1}, rng.Intn(3), true, false, "", req)
+	}
+	g.sched(&ops, 2)
+	for j := 0; j < 1+rng.Intn(2); j++ {
+		k := first[rng.Intn(len(first))]
+		for _, ki := range g.keys {
+			if ki.key == k {
+				ops = append(ops, M{"op": "release", "app": ki.app, "key": k, "term": "STOPPED_BY_RM"})
+			}
+		}
+	}
+	g.sched(&ops, 2)
+	return ops
+}
+
+// quotaPrologue: one user close to a limit on nodes that are nearly full with pods the scheduler does not manage. A larger
+// aged request of the user gets reserved, small requests of the same user (same or another application) use up what is
+// left of the nodes and of the user's quota, then one of the foreign pods goes away so that room appears on some node while
+// the user's usage stays where it is.
+func (g *Gen) quotaPrologue() []M {
+	rng := g.rng
+	var ops []M
+	nn := 2 + rng.Intn(g.P.Nodes-1)
+	for n := 0; n < nn; n++ {
+		c := 4 + rng.Intn(2)
+		ops = append(ops, M{"op": "addNode", "node": fmt.Sprintf("n%d", n), "cap": map[string]int64{"memory": int64(c), "pods": 4}, "drained": false})
+		ops = append(ops, M{"op": "foreign", "node": fmt.Sprintf("n%d", n), "key": fmt.Sprintf("f%d", n), "res": map[string]int64{"memory": int64(c - 1 - rng.Intn(2))}})
+	}
+	user := g.P.Users[rng.Intn(len(g.P.Users))]
+	groups := g.P.Groups[rng.Intn(len(g.P.Groups))]
+	q := g.P.Queues[rng.Intn(len(g.P.Queues))]
+	app := func(id string) {
+		if rng.Intn(3) == 0 {
+			q = g.P.Queues[rng.Intn(len(g.P.Queues))]
+		}
+		ops = append(ops, M{"op": "addApp", "app": id, "queue": q, "user": user, "groups": groups, "gang": false, "style": "", "forced": false, "tags": map[string]string{}})
+		g.gang[id], g.live[id] = false, true
+	}
+	app("app0")
+	app("app1")
+	g.mkAsk(&ops, "app1", map[string]int64{"memory": int64(2 + rng.Intn(2))}, 0, true, false, "", "")
+	g.sched(&ops, 2)
+	for j := 0; j < 1+rng.Intn(3); j++ {
+		g.mkAsk(&ops, fmt.Sprintf("app%d", rng.Intn(2)), map[string]int64{"memory": 1}, 0, true, false, "", "")
+	}
+	g.sched(&ops, 3)
+	ops = append(ops, M{"op": "foreignRemove", "key": fmt.Sprintf("f%d", rng.Intn(nn))})
+	g.sched(&ops, 2)
+	return ops
+}
+
+func (g *Gen) preemptPrologue() []M {
 	rng := g.rng
 	var ops []M
 	for n := 0; n < g.P.Nodes; n++ {
@@ -301,6 +513,9 @@ func (g *Gen) Next() M {
 		// a shim initiated release is always STOPPED_BY_RM; the other termination types are confirmations of a
 		// core initiated release ("confirm") or belong to the malformed-request profile ("bad")
 		return M{"op": "release", "app": ki.app, "key": ki.key, "term": "STOPPED_BY_RM"}
+	case "releaseAll":
+		// an allocation release without a key: the shim gives up everything the application holds and asks for
+		return M{"op": "releaseAll", "app": g.liveApp()}
 	case "confirm":
 		return M{"op": "confirm", "i": rng.Intn(8), "keep": rng.Intn(6) == 0}
 	case "firePhTimer", "fireStateTimer":
